@@ -1,6 +1,8 @@
 import ZeepVerif.Driver.C06
+import ZeepVerif.Driver.Gen
 
 def main (args : List String) : IO UInt32 := do
   match args with
   | ["c06"] => ZeepVerif.Driver.C06.main; return 0
+  | ["model", dump, start, out] => ZeepVerif.Driver.Gen.main dump start out
   | _ => IO.eprintln "usage: zvdrv c06 < lines"; return 2
